@@ -626,7 +626,7 @@ class CausalGraph(HasIdentifier, HasMetadata, CanDictSerialize, CanDictDeseriali
                     f'undirected edges. Got {edge.get_edge_type()} for the edge {edge.descriptor}.'
                 )
         self._adjacency = adj
-        return self._adjacency
+        return deepcopy(self._adjacency)
 
     @property
     def sepsets(self) -> dict:
@@ -2150,7 +2150,7 @@ class CausalGraph(HasIdentifier, HasMetadata, CanDictSerialize, CanDictDeseriali
 
         self._networkx = networkx_graph
 
-        return networkx_graph
+        return deepcopy(self._networkx)
 
     def to_numpy(self) -> Tuple[numpy.ndarray, List[str]]:
         """
